@@ -189,6 +189,7 @@ type c15Case struct {
 	guards  map[string]string // policy name -> neighbour address its statements are guarded by
 	vrfs    []c15Vrf          // VRF topology (c15_vrf_test.go): created before the peers
 	famOv   [][]bgp.Family    // per peer: address families of the session when not the plain IPv4(+IPv6) ones
+	apTarget int              // index of the one ADD-PATH-send neighbour (send-max 4 >= number of sources), -1 = none
 	stmtSeq int               // makes the names of statements added by changes unique
 	hist    bool              // multi-round history: the base only (no change, no reset, no racing)
 }
@@ -213,7 +214,7 @@ func c15GenCase(idx int, r *rand.Rand) *c15Case { return c15GenCaseMode(idx, r, 
 
 // c15GenCaseMode: hist = only the base of a multi-round history (topology, routes, program P1).
 func c15GenCaseMode(idx int, r *rand.Rand, hist bool) *c15Case {
-	c := &c15Case{idx: idx, r: r, guards: map[string]string{}, bursts: map[int][]c15Ann{}, hist: hist}
+	c := &c15Case{idx: idx, r: r, guards: map[string]string{}, bursts: map[int][]c15Ann{}, hist: hist, apTarget: -1}
 	// ---- topology
 	np := 2 + r.IntN(3)
 	topo := r.IntN(10) // 0-5 plain, 6-8 route server, 9 mixed
@@ -244,6 +245,33 @@ func c15GenCaseMode(idx int, r *rand.Rand, hist bool) *c15Case {
 			sc.Caps = caps
 		}
 		c.peers = append(c.peers, ps)
+	}
+	if hist && r.IntN(2) == 0 {
+		// One ordinary eBGP neighbour gets every path, not only the best one: ADD-PATH send with
+		// send-max 4 (never fewer than the sources, so no path is held back by the send-max
+		// bookkeeping) and the speaker announcing ADD-PATH receive. A policy change can then reject
+		// some paths of a prefix and keep others: the reset has to withdraw exactly those.
+		var el []int
+		for i, ps := range c.peers {
+			if ps.Kind == simEBGP {
+				el = append(el, i)
+			}
+		}
+		if len(el) > 0 {
+			i := el[r.IntN(len(el))]
+			c.apTarget = i
+			c.peers[i].SendMax = 4
+			fams := c.peers[i].families()
+			inner := c.peers[i].SpeakerMod
+			c.peers[i].SpeakerMod = func(sc *simSpeakerConf) {
+				inner(sc)
+				var tuples []*bgp.CapAddPathTuple
+				for _, f := range fams {
+					tuples = append(tuples, bgp.NewCapAddPathTuple(f, bgp.BGP_ADD_PATH_RECEIVE))
+				}
+				sc.Caps = append(sc.Caps, bgp.NewCapAddPath(tuples))
+			}
+		}
 	}
 	c.always = r.IntN(5) == 0
 	c.global = &api.Global{Asn: simLocalAS, RouterId: "1.1.1.1", RouteSelectionOptions: &api.RouteSelectionOptionsConfig{
@@ -355,7 +383,8 @@ func (c *c15Case) routeSpec(s int, prefix string) simRouteSpec {
 	if r.IntN(12) == 0 {
 		// a path through another peer's AS: loop towards that peer
 		q := c.peers[r.IntN(len(c.peers))]
-		if q.AS != ps.AS && q.AS != simLocalAS {
+		// (never a loop towards the ADD-PATH target: the bookkeeping of looped versions is C01's)
+		if q.AS != ps.AS && q.AS != simLocalAS && !(c.apTarget >= 0 && q.AS == c.peers[c.apTarget].AS) {
 			rs.ASPath = append(rs.ASPath, q.AS)
 		}
 	}
